@@ -282,11 +282,18 @@ impl FromStr for HLCTimestamp {
             .and_then(|v| v.parse::<u8>().ok())
             .ok_or(InvalidFormat)?;
 
-        Ok(Self::new(
-            parts_as_duration(seconds, fractional),
-            counter,
-            node,
-        ))
+        // `new` panics beyond the 32 bit seconds range, a fractional part of a
+        // second or more (>= 250) can also carry the seconds out of range.
+        if seconds > TIMESTAMP_MAX {
+            return Err(InvalidFormat);
+        }
+
+        let duration = parts_as_duration(seconds, fractional);
+        if duration.as_secs() > TIMESTAMP_MAX {
+            return Err(InvalidFormat);
+        }
+
+        Ok(Self::new(duration, counter, node))
     }
 }
 
